@@ -56,6 +56,11 @@ class Check:
         r["violations"] += 1
         self.obligations += 1
         self.distinct.add((rule, instance))
+        key = "%s|%s|%s" % (rule, instance, observed)
+        for v in self.violations:
+            if v["key"] == key:
+                v.setdefault("also_at", []).append(where)
+                return
         self.violations.append({
             "property": self.prop, "rule": rule, "instance": instance, "observed": observed,
             "key": "%s|%s|%s" % (rule, instance, observed),
